@@ -626,6 +626,29 @@ def run(st, tier, seed):
             flush()
             if len(res.corr_breaks) > 5:
                 break
+    # one LARGE design (more than 4096 positions - several buffers of the program are sized in chunks), oracle only: its trace is not
+    # replayed through the model (the list model is quadratic in the length)
+    for _ in range(1 if quick else 4):
+        L1, L2, h = rng.randint(2100, 2600), rng.randint(2100, 2600), rng.randint(8, 40)
+        n_ = L1 + 1 + L2
+        st_ = ["N"] * L1 + [" "] + ["N"] * L2
+        eq_ = [i + 1 for i in range(L1)] + [0] + [L1 + 2 + i for i in range(L2)]
+        wc_ = [-1] * n_
+        for d_ in range(h):                      # a helix between the start of strand 1 and the end of strand 2
+            i_, j_ = d_, n_ - 1 - d_
+            wc_[i_], wc_[j_] = j_ + 1, i_ + 1
+        big = {"st": "".join(st_), "eq": eq_, "wc": wc_, "opts": ["imax=3", "quiet=TRUE"], "optname": "large-imax3", "kind": "large",
+               "seed": rng.randrange(1, 1 << 40), "sanitize": True}
+        if not consistent(big["st"], big["eq"], big["wc"]):
+            raise RuntimeError("generator produced an inconsistent large triple")
+        r_, dt_ = run_case(big, max(cap, 60.0))
+        res.evaluations += 1
+        res.count("kind:large(>4096 positions)")
+        nv_ = len(res.violations)
+        judge(big, r_, res, 0)
+        for v_ in res.violations[nv_:]:          # keep the replay file small
+            if isinstance(v_.get("input"), dict) and "st" in v_["input"]:
+                v_["input"] = dict(v_["input"], note="two strands of %d and %d N, helix of %d pairs between the start of the first and the end of the second" % (L1, L2, h))
     res.extra["binary_runs_wall_s"] = round(time.time() - t_runs, 1)
     if drv:
         malformed_section(res, drv, rng, 14 if quick else 120)      # [checked model] (ii)
